@@ -57,7 +57,17 @@ def design_level(rep):
             raise V.ToolError("vacuous MC_Imports space: witness '%s' not found" % w)
     rep.notes.append("MC_Imports: %d instances (import * / * as m / a as x, b; parameter block): RefsInverse, AliasDenotesSymbol, FreshRenameIsCaptureFree hold; "
                      "witnesses: error-free instances and alias spellings exist" % r3.distinct)
-    return D.tlc_cases(r), D.tlc_cases(r2), D.tlc_cases(r3)
+    mf = os.path.join(SPEC, "MC_Forms.tla")
+    r4 = V.tlc(mf, cfg=os.path.join(SPEC, "MC_Forms.cfg"), workers=4, timeout=1200, tag="C16-mf")
+    rep.add_tlc(r4)
+    if r4.invariant_violated:
+        rep.violations.append({"why": "design level: MC_Forms invariant violated", "replay": {"tlc_output": V.tail(r4.out, 60)}, "id": "MC_Forms"})
+        return None
+    if r4.rc != 0 or "Error:" in r4.out:
+        raise V.ToolError("MC_Forms failed:\n" + V.tail(r4.out, 40))
+    rep.notes.append("MC_Forms: %d programs (two paths in one expression, .var assigned twice, defined(), .loop): EachOccurrenceCounts, VarIsOneSymbol, "
+                     "DefinedIsAUse, IndexDenotesNothing, FreshRenameIsCaptureFree hold" % r4.distinct)
+    return D.tlc_cases(r), D.tlc_cases(r2), D.tlc_cases(r3) + D.tlc_cases(r4)
 
 
 def observe(mos, p):
@@ -80,6 +90,7 @@ def main(tier):
     rnd.shuffle(masts)
     if tier == "quick":
         asts, masts = asts[:130], masts[:70]
+    nplain = len(asts)                       # the plain scope skeletons (no macros, imports, vars ..): used for the judge self-test
     asts = asts + masts + iasts
     projs = []
     with ThreadPoolExecutor(max_workers=6) as ex:
@@ -100,7 +111,7 @@ def main(tier):
 
     # binding demonstration: corrupt single fields of accepted records
     bad = {v["id"] for v in verdicts}
-    clean = [r for r in recs if r["id"] not in bad and len(r["obs"]) >= 4 and r["answered"]]
+    clean = [r for r in recs if r["id"] not in bad and len(r["obs"]) >= 4 and r["answered"] and 100000 <= r["id"] < 100000 + nplain]
     if not clean and not verdicts:
         raise V.ToolError("no accepted record for the judge self-test")
     muts = []
@@ -119,7 +130,7 @@ def main(tier):
             d["hl"] = d["hl"] + [-2]                             # a highlight that is no occurrence
         muts.append(m)
     mv = V.judge(jm, muts, cfg=jc, tag="C16-selftest")[0] if muts else []
-    caught = {v["id"] for v in mv if v["verdict"] == "violation"}
+    caught = {v["id"] for v in mv if v["verdict"] == "violation" or (v["verdict"] == "deviation" and v.get("dev") not in rep.open)}
     if caught != {m["id"] for m in muts}:
         raise V.ToolError("judge self-test: corrupted records not rejected: %s" % sorted({m["id"] for m in muts} - caught))
     if muts:
